@@ -39,13 +39,25 @@ struct Ows { int x; };                                             // operator<<
 struct Both { int x; };                                            // operator<< AND printer<Both>: printer wins
 enum Color { red = 0, green = 5, blue = -3 };                      // unscoped: streams as int
 enum class Ec : unsigned short { a = 0, b = 0x0102 };              // scoped: no <<, 2-byte dump
+// Types that can be null AND have a user-provided rendering.  The null test comes first: a null
+// of any of them prints nullptr, and the user's printer<> / operator<< is never handed a null.
+struct Widget { int id; };                                         // trompeloeil::printer<Widget*> (full specialisation)
+struct Gadget { int id; };                                         // printer<T*, SFINAE>: every pointer to (const) Gadget
+struct Knob { int id; };                                           // operator<<(ostream&, const Knob*)
+struct Handle { const int* p; };                                   // class with == nullptr, printer<Handle>
+struct OHandle { const int* p; };                                  // class with == nullptr, operator<<
 
 inline bool operator==(const UserP& a, const UserP& b) { return a.x == b.x; }
 inline bool operator==(const Ostr& a, const Ostr& b) { return a.x == b.x && a.flag == b.flag; }
 inline bool operator==(const Ows& a, const Ows& b) { return a.x == b.x; }
+inline bool operator==(const Handle& h, std::nullptr_t) { return h.p == nullptr; }
+inline bool operator==(const Handle& a, const Handle& b) { return a.p == b.p; }
+inline bool operator==(const OHandle& h, std::nullptr_t) { return h.p == nullptr; }
+inline bool operator==(const OHandle& a, const OHandle& b) { return a.p == b.p; }
 
 static unsigned g_user_printer_calls = 0;
 static unsigned g_user_stream_calls = 0;
+static unsigned g_user_null_calls = 0;  // a user printer<> / operator<< was handed a null (it then does not dereference it)
 
 inline std::ostream& operator<<(std::ostream& os, const Ostr& v) {
   ++g_user_stream_calls;
@@ -56,6 +68,16 @@ inline std::ostream& operator<<(std::ostream& os, const Ows& v) {
   return os << '[' << std::setw(5) << v.x << ']';
 }
 inline std::ostream& operator<<(std::ostream& os, const Both& v) { return os << "WRONG-operator<<(" << v.x << ")"; }
+inline std::ostream& operator<<(std::ostream& os, const Knob* k) {
+  ++g_user_stream_calls;
+  if (!k) { ++g_user_null_calls; return os << "K(NULL!)"; }
+  return os << "K(" << k->id << ')';
+}
+inline std::ostream& operator<<(std::ostream& os, const OHandle& h) {
+  ++g_user_stream_calls;
+  if (!h.p) { ++g_user_null_calls; return os << "OH(NULL!)"; }
+  return os << "OH(" << *h.p << ')';
+}
 
 namespace trompeloeil {
 // The user printers write unformatted, so their text does not depend on the state of the stream
@@ -71,6 +93,30 @@ template <> struct printer<Both> {
   static void print(std::ostream& os, const Both& v) {
     ++g_user_printer_calls;
     std::string s = "BP<" + std::to_string(v.x) + ">";
+    os.write(s.data(), static_cast<std::streamsize>(s.size()));
+  }
+};
+template <> struct printer<Widget*> {
+  static void print(std::ostream& os, Widget* const& w) {
+    ++g_user_printer_calls;
+    std::string s = "W(NULL!)";
+    if (w) s = "W(" + std::to_string(w->id) + ")"; else ++g_user_null_calls;
+    os.write(s.data(), static_cast<std::streamsize>(s.size()));
+  }
+};
+template <typename T> struct printer<T*, typename std::enable_if<std::is_same<typename std::remove_cv<T>::type, Gadget>::value>::type> {
+  static void print(std::ostream& os, T* const& g) {
+    ++g_user_printer_calls;
+    std::string s = "G(NULL!)";
+    if (g) s = "G(" + std::to_string(g->id) + ")"; else ++g_user_null_calls;
+    os.write(s.data(), static_cast<std::streamsize>(s.size()));
+  }
+};
+template <> struct printer<Handle> {
+  static void print(std::ostream& os, const Handle& h) {
+    ++g_user_printer_calls;
+    std::string s = "H(NULL!)";
+    if (h.p) s = "H(" + std::to_string(*h.p) + ")"; else ++g_user_null_calls;
     os.write(s.data(), static_cast<std::streamsize>(s.size()));
   }
 };
@@ -225,6 +271,14 @@ static int* gen_intp(Tape& t) {
   return &g_ints[(v / 3) % 4];
 }
 static size_t gen_len(Tape& t) { return static_cast<size_t>(t.next() % 4); }
+static Widget g_widgets[4] = {{1}, {-7}, {0}, {424242}};
+static Gadget g_gadgets[4] = {{2}, {-8}, {0}, {313131}};
+static Knob g_knobs[4] = {{3}, {-9}, {0}, {202020}};
+template <class P> static P* gen_poolp(P (&pool)[4], Tape& t) {  // null for a third of the draws, and for an exhausted tape
+  uint64_t v = t.next();
+  if (v % 3 == 0) return nullptr;
+  return &pool[(v / 3) % 4];
+}
 
 // =====================================================================================
 // The oracle's output
@@ -234,6 +288,10 @@ struct Out {
   std::string canon;    // the same with addresses and pointer bytes abstracted (hash / samples)
   int depth = 0, maxdepth = 0;
   int leaves = 0, nulls = 0, nulls_deep = 0, nulls_deep2 = 0, hexdumps = 0, hexdumps_deep = 0, hex_nontrivial = 0, user_printed = 0;
+  int user_streamed = 0;  // expected runs of the harness' own operator<< overloads
+  // nullable values with a user rendering: [0] printer<> / [1] operator<<  x  [0] top level / [1] inside a composite
+  int nu_null[2][2] = {{0, 0}, {0, 0}}, nu_val[2][2] = {{0, 0}, {0, 0}};
+  unsigned nu_shapes = 0;  // bit per shape that occurred as a null (NU_* below)
   bool has_ows = false;
   std::vector<size_t> hex_sizes;
   void lit(const std::string& s) { text[0] += s; text[1] += s; canon += s; }
@@ -241,6 +299,11 @@ struct Out {
   void opaque_lit(const std::string& s, const std::string& c) { text[0] += s; text[1] += s; canon += c; }
   void leaf() { ++leaves; }
   void null() { ++nulls; if (depth >= 1) ++nulls_deep; if (depth >= 2) ++nulls_deep2; lit("nullptr"); }
+  // a null of a type with a user rendering: plain nullptr, the user's code does not run
+  void null_user(int how, unsigned shape) { ++nu_null[how][depth >= 1]; nu_shapes |= 1u << shape; null(); }
+  // a non-null one: the user's text
+  void val_user(int how, const std::string& s) { ++nu_val[how][depth >= 1]; leaf(); if (how == 0) ++user_printed; else ++user_streamed; lit(s); }
+  int nu_nulls() const { return nu_null[0][0] + nu_null[0][1] + nu_null[1][0] + nu_null[1][1]; }
   void open() { lit("{ "); ++depth; if (depth > maxdepth) maxdepth = depth; }
   void close() { lit(" }"); --depth; }
   void hex(const void* p, size_t n, const char* canon_as = nullptr) {
@@ -270,6 +333,9 @@ struct Out {
 };
 
 enum Kind { K_STREAM, K_HEX, K_COMP, K_USER };
+enum NuShape { NU_FULL_SPEC_PTR, NU_PARTIAL_SPEC_PTR, NU_CLASS_PRINTER, NU_CLASS_OSTREAM, NU_PTR_OSTREAM, NU_SHAPES };
+static const char* const NU_SHAPE_NAMES[] = {"printer_full_specialisation_for_pointer", "printer_partial_specialisation_for_pointers", "printer_for_null_comparable_class",
+                                             "operator<<_for_null_comparable_class", "operator<<_for_pointer"};
 
 // =====================================================================================
 // Tr<T>: name, builder, nullness, oracle renderer -- all written without the library
@@ -469,7 +535,7 @@ template <> struct Tr<Ostr> {
   static std::string name() { return "ostreamable"; }
   static bool null(const Ostr&) { return false; }
   static void fill(Ostr& o, Tape& t) { o.x = gen_int<int>(t); o.flag = t.next() & 1; }
-  static void ora(Out& o, const Ostr& v) { o.leaf(); o.lit("S(" + std::to_string(v.x) + "," + (v.flag ? "1" : "0") + ")"); }
+  static void ora(Out& o, const Ostr& v) { o.leaf(); ++o.user_streamed; o.lit("S(" + std::to_string(v.x) + "," + (v.flag ? "1" : "0") + ")"); }
 };
 template <> struct Tr<Ows> {
   static constexpr Kind kind = K_STREAM;
@@ -480,11 +546,77 @@ template <> struct Tr<Ows> {
     // The type's own setw(5): the leaf must not see the prior fill; "default formatting
     // (decimal, unpadded)" leaves the side of the blanks open, so both are accepted.
     o.leaf();
+    ++o.user_streamed;
     std::string d = std::to_string(v.x);
     std::string p(d.size() < 5 ? 5 - d.size() : 0, ' ');
     o.lit("[");
     if (p.empty()) o.lit(d); else o.lit2(d + p, p + d);
     o.lit("]");
+  }
+};
+
+// ---- nullable types with a user rendering
+template <> struct Tr<Widget*> {
+  static constexpr Kind kind = K_USER;
+  static std::string name() { return "widget*"; }
+  static bool null(Widget* const& v) { return v == nullptr; }
+  static void fill(Widget*& o, Tape& t) { o = gen_poolp(g_widgets, t); }
+  static void ora(Out& o, Widget* const& v) { if (!v) o.null_user(0, NU_FULL_SPEC_PTR); else o.val_user(0, "W(" + std::to_string(v->id) + ")"); }
+};
+template <> struct Tr<Gadget*> {
+  static constexpr Kind kind = K_USER;
+  static std::string name() { return "gadget*"; }
+  static bool null(Gadget* const& v) { return v == nullptr; }
+  static void fill(Gadget*& o, Tape& t) { o = gen_poolp(g_gadgets, t); }
+  static void ora(Out& o, Gadget* const& v) { if (!v) o.null_user(0, NU_PARTIAL_SPEC_PTR); else o.val_user(0, "G(" + std::to_string(v->id) + ")"); }
+};
+template <> struct Tr<const Gadget*> {
+  static constexpr Kind kind = K_USER;
+  static std::string name() { return "const_gadget*"; }
+  static bool null(const Gadget* const& v) { return v == nullptr; }
+  static void fill(const Gadget*& o, Tape& t) { o = gen_poolp(g_gadgets, t); }
+  static void ora(Out& o, const Gadget* const& v) { if (!v) o.null_user(0, NU_PARTIAL_SPEC_PTR); else o.val_user(0, "G(" + std::to_string(v->id) + ")"); }
+};
+template <> struct Tr<Handle> {
+  static constexpr Kind kind = K_USER;
+  static std::string name() { return "handle"; }
+  static bool null(const Handle& v) { return v.p == nullptr; }
+  static void fill(Handle& o, Tape& t) { o.p = gen_intp(t); }
+  static void ora(Out& o, const Handle& v) { if (!v.p) o.null_user(0, NU_CLASS_PRINTER); else o.val_user(0, "H(" + std::to_string(*v.p) + ")"); }
+};
+template <> struct Tr<OHandle> {
+  static constexpr Kind kind = K_STREAM;
+  static std::string name() { return "ohandle"; }
+  static bool null(const OHandle& v) { return v.p == nullptr; }
+  static void fill(OHandle& o, Tape& t) { o.p = gen_intp(t); }
+  static void ora(Out& o, const OHandle& v) { if (!v.p) o.null_user(1, NU_CLASS_OSTREAM); else o.val_user(1, "OH(" + std::to_string(*v.p) + ")"); }
+};
+template <> struct Tr<Knob*> {
+  static constexpr Kind kind = K_STREAM;
+  static std::string name() { return "knob*"; }
+  static bool null(Knob* const& v) { return v == nullptr; }
+  static void fill(Knob*& o, Tape& t) { o = gen_poolp(g_knobs, t); }
+  static void ora(Out& o, Knob* const& v) { if (!v) o.null_user(1, NU_PTR_OSTREAM); else o.val_user(1, "K(" + std::to_string(v->id) + ")"); }
+};
+// optional<E> of such a type: an engaged null compares equal to nullptr; otherwise the optional object itself
+// has neither << nor a printer and is dumped (the element's printer does not run).
+template <class E> struct Tr<std::optional<E>> {
+  using O = std::optional<E>;
+  static constexpr Kind kind = K_HEX;
+  static std::string name() { return "optional<" + Tr<E>::name() + ">"; }
+  static bool null(const O& v) { return v.has_value() && Tr<E>::null(*v); }
+  static void fill(O& o, Tape& t) {
+    uint64_t v = t.next();
+    if (v % 3 == 1) { o.reset(); return; }
+    std::vector<uint64_t> sub{v % 3 == 0 ? 0ULL : 1 + 3 * (v / 3)};  // engaged null / engaged non-null
+    Tape st{&sub};
+    E e{};
+    Tr<E>::fill(e, st);
+    o = e;
+  }
+  static void ora(Out& o, const O& v) {
+    if (null(v)) { Out sub; sub.depth = o.depth; Tr<E>::ora(sub, *v); for (int h = 0; h < 2; ++h) for (int d = 0; d < 2; ++d) o.nu_null[h][d] += sub.nu_null[h][d]; o.nu_shapes |= sub.nu_shapes; o.null(); return; }
+    o.hex(&v, sizeof v, v.has_value() ? "<optional bytes, engaged>" : "<optional bytes, empty>");
   }
 };
 
@@ -605,6 +737,26 @@ using Basic = TL<
     std::pair<std::vector<Opaque<17>>, std::vector<std::pair<UserP, Ostr>>>, std::vector<std::list<std::pair<cstr, sp_t>>>,
     std::map<int, std::tuple<np_t, std::vector<opt_t>, long long>>, vvi2_t, pcl2_t>;
 
+// Nullable types with a user rendering (appended to the table after opaque<1..40>, so the ids of the older types stay).
+using widp_t = Widget*;
+using gadp_t = Gadget*;
+using cgadp_t = const Gadget*;
+using knobp_t = Knob*;
+using vwid_t = std::vector<widp_t>;
+using tnu_t = std::tuple<widp_t, gadp_t, Handle, OHandle>;
+typedef widp_t widp2_t[2];
+using NullableUser = TL<
+    // leaves
+    widp_t, gadp_t, cgadp_t, Handle, OHandle, knobp_t, std::optional<widp_t>, std::optional<Handle>,
+    // depth 1
+    std::pair<widp_t, Handle>, std::pair<int, cgadp_t>, tnu_t, std::tuple<knobp_t, cstr, widp_t>,
+    vwid_t, std::vector<Handle>, std::vector<OHandle>, std::list<cgadp_t>, std::map<int, widp_t>, widp2_t, std::vector<std::optional<widp_t>>,
+    // depth 2
+    std::vector<std::pair<widp_t, OHandle>>, std::map<std::string, std::vector<Handle>>, std::tuple<std::vector<gadp_t>, std::pair<knobp_t, Handle>>,
+    std::pair<UserP, vwid_t>,
+    // depth 3
+    std::vector<std::list<std::pair<cstr, widp_t>>>, std::map<int, std::tuple<np_t, std::vector<Handle>, OHandle>>>;
+
 // =====================================================================================
 // End-to-end sample: mock functions taking / returning some of the types
 // =====================================================================================
@@ -628,6 +780,14 @@ struct Mock {
   MAKE_MOCK1(f_userp, void(UserP));
   MAKE_MOCK0(r_cstr, char const*());
   MAKE_MOCK0(r_vpc, vpc_t());
+  MAKE_MOCK1(f_widp, void(Widget*));
+  MAKE_MOCK1(f_cgadp, void(Gadget const*));
+  MAKE_MOCK1(f_handle, void(Handle));
+  MAKE_MOCK1(f_ohandle, void(OHandle const&));
+  MAKE_MOCK1(f_vwid, void(vwid_t const&));
+  MAKE_MOCK1(f_tnu, void(tnu_t const&));
+  MAKE_MOCK0(r_widp, Widget*());
+  MAKE_MOCK0(r_handle, Handle());
 };
 
 using Exp = std::unique_ptr<trompeloeil::expectation>;
@@ -653,6 +813,12 @@ S_E2E(tnull_t, f_tnull)
 S_E2E(deepmap_t, f_deepmap)
 S_E2E(Opaque<17>, f_op17)
 S_E2E_EXP(UserP, f_userp)
+S_E2E_EXP_RET(widp_t, f_widp, r_widp)
+S_E2E_EXP(cgadp_t, f_cgadp)
+S_E2E_EXP_RET(Handle, f_handle, r_handle)
+S_E2E_EXP(OHandle, f_ohandle)
+S_E2E_EXP(vwid_t, f_vwid)
+S_E2E(tnu_t, f_tnu)
 
 // =====================================================================================
 // One case
@@ -674,6 +840,7 @@ struct CaseInfo {
   bool padded_first_token = false, width_consumed = false, restoration_asserted = false;
   int e2e_done = -1;  // mode actually exercised end-to-end
   bool e2e_skipped_equal = false;
+  int e2e_expected_nu_nulls = 0;  // nulls with a user rendering inside the *expected* value of an Expected line
   std::string value_desc;
 };
 struct Verdict { bool ok = true; std::string why; };
@@ -735,7 +902,7 @@ template <class T> static E2EOps make_ops() {
 }
 
 // v: the value; w/o2: a second, different value and its rendering (expected mode only).
-static Verdict e2e_run(const E2EOps& ops, int mode, CaseInfo& info, const void* v, const void* w, const Out* o2) {
+static Verdict e2e_modes(const E2EOps& ops, int mode, CaseInfo& info, const void* v, const void* w, const Out* o2) {
   Verdict r;
   const Out& o = info.o;
   g_reports.clear();
@@ -786,6 +953,19 @@ static Verdict e2e_run(const E2EOps& ops, int mode, CaseInfo& info, const void* 
   return r;
 }
 
+static Verdict e2e_run(const E2EOps& ops, int mode, CaseInfo& info, const void* v, const void* w, const Out* o2) {
+  const unsigned null0 = g_user_null_calls;
+  Verdict r = e2e_modes(ops, mode, info, v, w, o2);
+  if (g_user_null_calls != null0) {  // whatever else the mode found: the user's printer<> / operator<< must not have seen a null
+    std::string first = "end-to-end (" + std::string(MODES[mode]) + "): a user printer<T> / operator<< was handed a null value " + std::to_string(g_user_null_calls - null0) +
+                        " time(s); a null must be printed as nullptr without running it";
+    r.why = r.ok ? first : first + "\n" + r.why;
+    r.ok = false;
+  }
+  if (o2) info.e2e_expected_nu_nulls = o2->nu_nulls();
+  return r;
+}
+
 template <class T> static Verdict e2e_check(const CaseIn& c, CaseInfo& info, const T& v, Tape& tp) {
   if constexpr (E2E<T>::has) {
     static const E2EOps ops = make_ops<T>();
@@ -815,7 +995,7 @@ struct Observed {
   char fill0 = ' ', fill1 = ' ';
   std::streamsize w0 = 0, w1 = 0;
   bool good = true;
-  unsigned user_printer_calls = 0;
+  unsigned user_printer_calls = 0, user_stream_calls = 0, user_null_calls = 0;
 };
 
 // Everything that does not depend on the value type: compare what was observed with the oracle.
@@ -823,6 +1003,13 @@ static Verdict judge(const CaseIn& c, CaseInfo& info, const Observed& ob) {
   Verdict r;
   const Out& o = info.o;
   info.value_desc = o.canon;
+  // ---- the null test comes first: no user printer<T> / operator<< is ever handed a null
+  if (ob.user_null_calls != 0) {
+    r.ok = false;
+    r.why = "a user printer<T> / operator<< was handed a null value " + std::to_string(ob.user_null_calls) + " time(s); a null must be printed as nullptr without running it\n" +
+            "expected: \"" + esc(o.text[0]) + "\"\nactual:   \"" + esc(ob.got) + "\"";
+    return r;
+  }
   // ---- text
   std::vector<std::string> accepted;
   accepted.push_back(o.text[0]);
@@ -849,6 +1036,11 @@ static Verdict judge(const CaseIn& c, CaseInfo& info, const Observed& ob) {
   if (ob.user_printer_calls != static_cast<unsigned>(o.user_printed)) {
     r.ok = false;
     r.why = "user printer<T> ran " + std::to_string(ob.user_printer_calls) + " times, expected " + std::to_string(o.user_printed);
+    return r;
+  }
+  if (ob.user_stream_calls != static_cast<unsigned>(o.user_streamed)) {
+    r.ok = false;
+    r.why = "user operator<< ran " + std::to_string(ob.user_stream_calls) + " times, expected " + std::to_string(o.user_streamed);
     return r;
   }
 
@@ -884,13 +1076,15 @@ static void observe(const SState& st, Observed& ob, void (*printfn)(std::ostream
   std::ostringstream os;
   apply_state(os, st);
   ob.f0 = os.flags(); ob.fill0 = os.fill(); ob.w0 = os.width();
-  const unsigned up0 = g_user_printer_calls;
+  const unsigned up0 = g_user_printer_calls, us0 = g_user_stream_calls, un0 = g_user_null_calls;
 
   printfn(os, v);  // trompeloeil::print(os, value)
 
   ob.got = os.str();
   ob.f1 = os.flags(); ob.fill1 = os.fill(); ob.w1 = os.width(); ob.good = os.good();
   ob.user_printer_calls = g_user_printer_calls - up0;
+  ob.user_stream_calls = g_user_stream_calls - us0;
+  ob.user_null_calls = g_user_null_calls - un0;
   os << 255;
   os << true;
   ob.probe = os.str().substr(ob.got.size());
@@ -925,12 +1119,15 @@ struct TypeEntry {
 };
 static std::vector<TypeEntry> g_types;
 static int g_first_opaque = 0;
+static int g_first_nullable_user = 0;
 template <class... T> static void add_types(TL<T...>) { int d[] = {0, (g_types.push_back({Tr<T>::name(), &check_one<T>, 0, E2E<T>::has}), 0)...}; (void)d; }
 template <size_t... I> static void add_opaque(std::index_sequence<I...>) { int d[] = {0, (g_types.push_back({Tr<Opaque<I + 1>>::name(), &check_one<Opaque<I + 1>>, I + 1, E2E<Opaque<I + 1>>::has}), 0)...}; (void)d; }
 static void build_table() {
   add_types(Basic{});
   g_first_opaque = static_cast<int>(g_types.size());
   add_opaque(std::make_index_sequence<40>{});
+  g_first_nullable_user = static_cast<int>(g_types.size());
+  add_types(NullableUser{});
 }
 
 }  // namespace s
@@ -1012,6 +1209,19 @@ static void account(const CaseIn& c, const CaseInfo& info, bool from_enum) {
   if (info.e2e_done == M_EXPECTED) ST.label("e2e_expected_value_line");
   if (info.e2e_done == M_RETURN) ST.label("e2e_traced_return_value");
   if (info.e2e_skipped_equal) ST.label("e2e_expected_skipped_values_equal");
+  // nullable values that have a user rendering
+  static const char* const how[] = {"printer", "operator<<"};
+  for (int h = 0; h < 2; ++h) {
+    if (o.nu_null[h][0]) ST.label(std::string("null_with_user_") + how[h] + "_top_level");
+    if (o.nu_null[h][1]) ST.label(std::string("null_with_user_") + how[h] + "_inside_composite");
+    if (o.nu_val[h][0]) ST.label(std::string("nonnull_with_user_") + how[h] + "_top_level");
+    if (o.nu_val[h][1]) ST.label(std::string("nonnull_with_user_") + how[h] + "_inside_composite");
+  }
+  for (int sh = 0; sh < NU_SHAPES; ++sh) if (o.nu_shapes & (1u << sh)) ST.label(std::string("null_") + NU_SHAPE_NAMES[sh]);
+  if (o.nu_nulls() && (o.nu_val[0][1] || o.nu_val[1][1])) ST.label("null_and_nonnull_user_rendered_in_one_composite");
+  if (o.nu_nulls() && info.top == T_NULL && info.padded_first_token) ST.label("null_with_user_rendering_padded_accepted");
+  if (o.nu_nulls() && info.e2e_done >= 0) ST.label(std::string("null_with_user_rendering_e2e_") + MODES[info.e2e_done]);
+  if (info.e2e_expected_nu_nulls) ST.label("null_with_user_rendering_in_expected_value");
 }
 
 static bool run_case(const CaseIn& c, std::string* why, bool from_enum) {
@@ -1107,7 +1317,9 @@ int main(int argc, char** argv) {
     if (sev == trompeloeil::severity::fatal) throw fatal_report{};
   });
   ST.rule = "rapidcheck picks one of " + std::to_string(g_types.size()) + " value types (scalars, strings, raw/smart pointers and optional<int*> incl. null, "
-            "nullptr_t, std::function, pair, tuple<0..4>, vector/list/set/map/C arrays nested to depth 3, opaque<1..40>, printer<T> and operator<< types), "
+            "nullptr_t, std::function, pair, tuple<0..4>, vector/list/set/map/C arrays nested to depth 3, opaque<1..40>, printer<T> and operator<< types, "
+            "and nullable types WITH a user rendering: printer<Widget*>, printer<T*, SFINAE> for (const) Gadget*, operator<< for Knob*, classes comparable with nullptr that have "
+            "a printer<> / an operator<<, alone, in optional<> and nested to depth 3 -- a null prints nullptr and the user's code must not run), "
             "a tape of integers decoded into the value, and a prior stream state (base x fill x width{0,1,8,20} x adjust x showbase x uppercase x boolalpha); "
             "trompeloeil::print output, flags/fill/width afterwards and a probe insertion are compared with an independent renderer; a sample goes through "
             "no-match reports, Expected lines and tracer records. Non-trivial: prior state differs from a fresh stream in >=2 dimensions, or value depth >=2, "
@@ -1116,6 +1328,7 @@ int main(int argc, char** argv) {
   ST.assumptions.push_back("composites and null values: first token ('{ ' / 'nullptr') accepted padded to the prior width or unpadded; width restoration not asserted there (flags and fill are)");
   ST.assumptions.push_back("a setw() inside a user operator<< may pad on either side, but only with blanks");
   ST.assumptions.push_back("user printer<T> specialisations write unformatted; no restoration is asserted after them");
+  ST.assumptions.push_back("optional<P> of a nullable type with a user rendering: engaged null prints nullptr, otherwise the optional object is hex-dumped (the element's printer does not run)");
   const bool quiet = A.has("quiet");
   if (!A.replay.empty()) {
     int rc = do_replay(A.replay, A.has("verbose") || !quiet);
@@ -1132,8 +1345,9 @@ int main(int argc, char** argv) {
     ok = rc::check("C18 value printing", [&]() {
       CaseIn c;
       using namespace rc::gen;
-      int cat = *resize(100, inRange<int>(0, 8));
+      int cat = *resize(100, inRange<int>(0, 10));
       if (cat == 7) c.tid = g_first_opaque + *resize(100, inRange<int>(0, 40));
+      else if (cat >= 8) c.tid = g_first_nullable_user + *resize(100, inRange<int>(0, static_cast<int>(g_types.size()) - g_first_nullable_user));
       else c.tid = *resize(100, inRange<int>(0, n_basic));
       c.tape = *container<std::vector<uint64_t>>(arbitrary<uint64_t>());
       c.st.base = *resize(100, inRange<int>(0, 3));
